@@ -2,6 +2,8 @@
 #include "common.hh"
 
 #include <vata/incl_param.hh>
+#include <random>
+#include <set>
 #include <vata/sim_param.hh>
 
 using VATA::AutBase;
@@ -446,11 +448,66 @@ json randAut(std::mt19937& rng, const std::vector<std::pair<std::string, size_t>
 }
 }
 
+// the twin presentation of a pair: states renamed by random bijections (onto other numbers), rules and final states in a
+// shuffled order, symbols registered in a shuffled order - deterministic in tseed
+void MakeTwin(const json& ja, const json& jb, unsigned tseed, json& ta2, json& tb2, json& syms2)
+{
+	std::mt19937 r2(tseed);
+	auto twinOf = [&r2](const json& j, size_t base) {
+		std::set<size_t> st;
+		for (auto& q : j["fin"]) { st.insert(q.get<size_t>()); }
+		for (auto& r : j["rules"]) { st.insert(r[2].get<size_t>()); for (auto& k : r[1]) { st.insert(k.get<size_t>()); } }
+		std::vector<size_t> from(st.begin(), st.end()), to(st.size());
+		for (size_t i = 0; i < to.size(); ++i) { to[i] = base + 3 * i + 1; }
+		std::shuffle(to.begin(), to.end(), r2);
+		std::map<size_t, size_t> m;
+		for (size_t i = 0; i < from.size(); ++i) { m[from[i]] = to[i]; }
+		std::vector<json> rules;
+		for (auto r : j["rules"]) { for (auto& k : r[1]) { k = m[k.get<size_t>()]; } r[2] = m[r[2].get<size_t>()]; rules.push_back(r); }
+		std::shuffle(rules.begin(), rules.end(), r2);
+		std::vector<size_t> fin;
+		for (auto& q : j["fin"]) { fin.push_back(m[q.get<size_t>()]); }
+		std::shuffle(fin.begin(), fin.end(), r2);
+		json out;
+		out["fin"] = fin; out["rules"] = rules;
+		return out;
+	};
+	ta2 = twinOf(ja, 50);
+	tb2 = twinOf(jb, 500);
+	std::vector<json> syms;
+	for (const json* j : {&ja, &jb}) { for (auto& r : (*j)["rules"]) { json s = json::array({r[0], r[1].size()}); if (std::find(syms.begin(), syms.end(), s) == syms.end()) { syms.push_back(s); } } }
+	std::shuffle(syms.begin(), syms.end(), r2);
+	syms2 = syms;
+}
+
+// {"op":"twin","A","B","tseed"}: all 8 selections on the pair and on its twin presentation (replay of an agreement-arm finding)
+VDRIVE_OP(twin)
+{
+	Alpha alpha;
+	TA a = MakeTA(c.at("A"), alpha);
+	TA b = MakeTA(c.at("B"), alpha);
+	json v = json::array(), vt = json::array();
+	for (const Sel& sel : SELS) { v.push_back(runIncl(a, b, sel)); }
+	json ta2, tb2, syms2;
+	MakeTwin(c.at("A"), c.at("B"), c.at("tseed").get<unsigned>(), ta2, tb2, syms2);
+	Alpha alpha2;
+	alpha2.RegisterAll(syms2);
+	TA a2 = MakeTA(ta2, alpha2);
+	TA b2 = MakeTA(tb2, alpha2);
+	for (const Sel& sel : SELS) { vt.push_back(runIncl(a2, b2, sel)); }
+	json res;
+	res["v"] = v; res["v_twin"] = vt;
+	res["A_after"] = ReadTA(a, alpha);
+	res["B_after"] = ReadTA(b, alpha);
+	return res;
+}
+
 VDRIVE_OP(inclagree)
 {
 	std::mt19937 rng(c.at("seed").get<unsigned>());
 	size_t count = c.at("count").get<size_t>();
 	std::string shape = c.value("shape", "dense");
+	bool twin = c.value("twin", false);
 	typedef std::vector<std::pair<std::string, size_t>> AlphaV;
 	const AlphaV alphas[4] = {
 		{{"a", 0}, {"b", 0}, {"f", 2}},
@@ -463,11 +520,34 @@ VDRIVE_OP(inclagree)
 	{
 		size_t nqa, nqb, nra, nrb;
 		const AlphaV* al;
-		if (shape == "dense") { al = &alphas[rng() % 2]; nqa = 1 + rng() % 3; nra = 2 + rng() % 4; nqb = 2 + rng() % 3; nrb = 3 + rng() % 6; }
+		if (shape == "dense" || shape == "near") { al = &alphas[rng() % 3]; nqa = 1 + rng() % 3; nra = 2 + rng() % 4; nqb = 2 + rng() % 3; nrb = 3 + rng() % 6; }
 		else if (shape == "mid") { al = &alphas[2]; nqa = 2 + rng() % 3; nra = 3 + rng() % 6; nqb = 2 + rng() % 4; nrb = 4 + rng() % 9; }
 		else { al = &alphas[3]; nqa = 2 + rng() % 5; nra = 4 + rng() % 13; nqb = 2 + rng() % 5; nrb = 4 + rng() % 13; }
 		json ja = randAut(rng, *al, nqa, nra, (rng() % 2) ? 0 : 3);
 		json jb = randAut(rng, *al, nqb, nrb, (rng() % 3 == 0) ? 0 : 10);
+		if (shape == "near" || (twin && rng() % 2))
+		{	// "nearly included": B is a shifted copy of A with a rule dropped and a few rules added
+			size_t base = (ja["fin"].empty() ? 0 : 0);
+			(void)base;
+			json rules = json::array();
+			size_t drop = ja["rules"].empty() ? 0 : rng() % ja["rules"].size();
+			bool doDrop = (rng() % 100 < 40);
+			for (size_t k = 0; k < ja["rules"].size(); ++k)
+			{
+				if (doDrop && k == drop) { continue; }
+				json r = ja["rules"][k];
+				for (auto& kid : r[1]) { kid = kid.get<size_t>() + 20; }
+				r[2] = r[2].get<size_t>() + 20;
+				rules.push_back(r);
+			}
+			json extra = randAut(rng, *al, 3, rng() % 4, 20);
+			for (auto& r : extra["rules"]) { rules.push_back(r); }
+			json fin = json::array();
+			for (auto& q : ja["fin"]) { fin.push_back(q.get<size_t>() + 20); }
+			if (rng() % 100 < 25) { for (auto& q : extra["fin"]) { fin.push_back(q); } }
+			jb = json::object();
+			jb["fin"] = fin; jb["rules"] = rules;
+		}
 		SetStage(("inclagree pair " + std::to_string(i)).c_str());
 		Alpha alpha;
 		TA a = MakeTA(ja, alpha);
@@ -479,16 +559,33 @@ VDRIVE_OP(inclagree)
 			v.push_back(runIncl(a, b, sel));
 			if (v.back() != v[0] || (v.back() != "T" && v.back() != "F")) { same = false; }
 		}
+		json vt = json::array();
+		unsigned tseed = rng();
+		if (twin)
+		{
+			json ta2, tb2, syms2;
+			MakeTwin(ja, jb, tseed, ta2, tb2, syms2);
+			Alpha alpha2;
+			alpha2.RegisterAll(syms2);
+			TA a2 = MakeTA(ta2, alpha2);
+			TA b2 = MakeTA(tb2, alpha2);
+			for (const Sel& sel : SELS)
+			{
+				vt.push_back(runIncl(a2, b2, sel));
+				if (vt.back() != v[0]) { same = false; }
+			}
+		}
 		if (v[0] == "T") { ++included; } else { ++nonIncluded; }
 		if (!same && disagree.size() < 25)
 		{
 			json ev;
-			ev["op"] = "incl";
+			ev["op"] = twin ? "twin" : "incl";
 			ev["A"] = ja; ev["B"] = jb;
 			ev["outcome"] = "ok";
 			ev["src"] = "agreement-arm";
 			ev["id"] = json::array({"agree", c.at("seed"), i});
 			json r;
+			if (twin) { ev["tseed"] = tseed; r["v_twin"] = vt; }
 			r["v"] = v;
 			r["A_after"] = ReadTA(a, alpha);
 			r["B_after"] = ReadTA(b, alpha);
